@@ -84,6 +84,8 @@ def getSampledIndex (fuel : Nat) (p off si : α) (m : PositionMatch) : Option Na
   else if !(decide (zero < si)) || !(isFinite p) || !(isFinite off) then none
   else
     let q := floor (div (sub p off) si)
+    -- an estimate of 2^53 or more (or an overflowed quotient) cannot be corrected in steps of one: no index (fix df344c6)
+    if !(decide (q < ofNat 9007199254740992)) then none else
     let est : Nat := if q < zero then 0 else toNat q
     let x := posAt si off
     match corrUp x p fuel (corrDown x p est) with
